@@ -42,11 +42,11 @@ class VdiModel(Model):
         self.globals["SPARSE"] = IntV(z3.IntVal(c.SPARSE))
         self.items["self.map"] = self.map_getitem
         self.methods[("self.parent", "_read")] = self.parent_read
-        self.hyps += [self.nmap >= 0, self.nmap <= U32, z3.ForAll([K], z3.And(self.MAP(K) >= -(1 << 31), self.MAP(K) < (1 << 31))), byte_range_axiom(self.farr)]
+        self.hyps += [self.nmap >= 0, self.nmap <= U32, z3.ForAll([T], z3.And(self.MAP(T) >= -(1 << 31), self.MAP(T) < (1 << 31))), byte_range_axiom(self.farr)]
         if wf:
             self.hyps += [self.bs > 0, self.size <= self.nmap * self.bs,
-                          z3.ForAll([K], z3.Implies(z3.And(0 <= K, K < self.nmap),
-                                                    z3.And(self.MAP(K) >= -2, z3.Implies(self.MAP(K) >= 0, self.data_offset + (self.MAP(K) + 1) * self.bs <= self.fsize))))]
+                          z3.ForAll([T], z3.Implies(z3.And(0 <= T, T < self.nmap),
+                                                    z3.And(self.MAP(T) >= -2, z3.Implies(self.MAP(T) >= 0, self.data_offset + (self.MAP(T) + 1) * self.bs <= self.fsize))))]
 
     def guest_def(self, x):  # SPEC (VDICore.h)
         q, r, fact = ediv(x, self.bs)
